@@ -514,5 +514,35 @@ class Resolver:
                 else:
                     resolved += 1
         ambiguous = [u for u in unresolved if u[2].rsplit('.', 1)[-1] in repo_meths
-                     and not u[2].startswith('super(')]
+                     and not u[2].startswith('super(') and not self._external_value(u)]
         return total, resolved, unresolved, ambiguous
+
+    def _external_value(self, u):
+        """The receiver of an unresolved method call is a local whose every definition is the result of a call into the
+        standard library / NumPy (other than copy.copy / copy.deepcopy, which return what they are given), a literal or a
+        comprehension: such a value cannot be an instance of a class of this package, so the call cannot hide one of its
+        methods."""
+        from .astutil import defs_of
+        fkey, lineno, ftxt = u
+        recv = ftxt.rsplit('.', 1)[0]
+        if not recv.isidentifier():
+            return False
+        func = next((f for f in self.repo.all_funcs() if f.key == fkey), None)
+        if func is None or recv in func.params:
+            return False
+        ds = defs_of(func.node, recv)
+        if not ds:
+            return False
+        for v, st in ds:
+            if isinstance(v, (ast.Dict, ast.List, ast.Set, ast.Tuple, ast.Constant, ast.DictComp, ast.ListComp, ast.SetComp,
+                              ast.JoinedStr)):
+                continue
+            if isinstance(v, ast.Call) and not isinstance(st, (ast.For, ast.With, ast.comprehension)):
+                d = dotted(v.func) or ''
+                if d in ('copy.copy', 'copy.deepcopy', 'deepcopy', 'copy'):
+                    return False
+                r = self.resolve_call(v, func)
+                if r and all(k == 'ext' and not t.startswith('?') for k, t in r):
+                    continue
+            return False
+        return True
